@@ -8,7 +8,6 @@ use std::sync::atomic::{AtomicBool, Ordering};
 use std::sync::{Arc, Mutex, OnceLock};
 use std::time::Instant;
 
-use proptest::strategy::Strategy;
 use proptest::test_runner::{Config, RngSeed, TestCaseError, TestError, TestRunner};
 use serde_json::{json, Value};
 
@@ -150,7 +149,7 @@ impl Ctx {
         }
         self.sample_seen += 1;
         let n = self.sample_seen;
-        if (n & (n - 1)) == 0 && self.samples.len() < 24 {
+        if (n & (n - 1)) == 0 && (n >= 32 || n == 1) && self.samples.len() < 24 {
             self.samples.push(f());
         }
     }
@@ -326,7 +325,15 @@ pub fn catch<R>(f: impl FnOnce() -> R) -> Result<R, String> {
 fn run_guarded(f: impl FnOnce() -> Verdict, case_hint: impl FnOnce() -> Value) -> Verdict {
     match catch(f) {
         Ok(v) => v,
-        Err(msg) => Err(Failure::new(format!("panic: {msg}"), case_hint())),
+        Err(msg) => {
+            // a panic raised by harness code (location under the harness' own src/) is a harness fault
+            // (exit 2); one raised inside /repo or in a dependency called from it is a finding
+            let mut f = Failure::new(format!("panic: {msg}"), case_hint());
+            if msg.contains(" at src/") && !msg.contains("/repo/") {
+                f.harness_fault = true;
+            }
+            Err(f)
+        }
     }
 }
 
